@@ -112,6 +112,19 @@ theorem queue_locks :
     and uses no other lock operation -/
 theorem unlock_deferred_everywhere : all.all lockPatternOk = true := by decide
 
+/-- **slice_results_fresh.**  Every exported or internal method whose result is a slice (the 17 KeyArray /
+    ValueArray / ToArray / GetArray methods today; any new one is covered automatically) returns, on every
+    return path, a slice allocated in that very call (`make`, a literal, a declared local that is only
+    appended to), nil, or the result of another own method with that property — never a field, a slice of
+    a field or a buffer kept in the object.  This is what makes the model's "a result is a value" transfer
+    to the Go code (`C10.returned_results_are_final`). -/
+theorem slice_results_fresh : all.all (fun T => (storedSliceReturners T).isEmpty) = true := by decide
+
+/-- the obligation has a subject: these are the slice-returning methods found in the source -/
+theorem slice_returning_methods_exist :
+    (all.flatMap (fun T => (T.methods.filter (·.retSlice)).map (fun M => T.name ++ "." ++ M.name))).length ≥ 17 := by
+  decide
+
 /-- no method of a lock-bearing type has a value receiver (a call would copy the mutex) -/
 theorem no_value_receivers :
     all.all (fun T => (valueReceivers T).isEmpty) = true := by decide
